@@ -13,6 +13,25 @@ ASSUMPTIONS = ["lengths above what the Lean driver can hold in memory (a few MiB
 NOT_PROVED = []
 
 
+def context_sequence_scripts(rng):
+    """several derive-key calls in a row on one thread with contexts that share a long prefix and have equal length (a result must
+    not depend on an earlier call), through the one-shot function and through new_derive_key"""
+    out = []
+    for plen, total in [(64, 66), (64, 80), (100, 102), (128, 130), (1024, 1100), (70, 70 + 1)]:
+        base = bytes(rng.randrange(32, 127) for _ in range(plen))
+        ctxs = [base + bytes([65 + i]) * (total - plen) for i in range(3)]
+        for p in ["portable", "avx512"]:
+            ops = [f"P plat {p}"]
+            for rep in range(2):
+                for c in ctxs:
+                    d = pat(rng.choice([0, 5, 1025]), rng)
+                    ops.append(f"O hash derive {hexs(c)} {d}")
+                for i, c in enumerate(ctxs):
+                    ops += [f"H new h{i} derive {hexs(c)}", f"H upd h{i} {pat(10, rng)}", f"H fin h{i}"]
+            out.append(Script(ops, tags=("context-sequence", p)))
+    return out
+
+
 def stages(tier, seed, witness_search=False):
     rng = Rng(seed)
     scripts = []
@@ -39,6 +58,7 @@ def stages(tier, seed, witness_search=False):
         for n in [0, 1, 1024, 1025, 5000]:
             for p in plats:
                 scripts.append(Script([f"P plat {p}", f"O hash derive {hexs(ctx)} {pat(n, rng)}"], tags=("contexts", p)))
+    scripts += context_sequence_scripts(rng)
     if tier == "thorough":
         for p in plats:
             for e in range(11, 12):
